@@ -63,7 +63,7 @@ struct Shared
     std::atomic<long> paths, pruned, excluded, violations, inconclusive, truncated, crashed, uncaught;
     std::atomic<long> queries, q_sat, q_unsat, q_unknown, solver_us, forks, pending, started, live, maxlive;
     std::atomic<long> obligations, discharged, obl_unknown, branch_unknown, maxdepth, nsamples, stop, div_guard, sqrt_guard;
-    std::atomic<long> nlabels, nviolfiles, slowest_us, tol_discharged;
+    std::atomic<long> nlabels, nviolfiles, slowest_us, tol_discharged, q_cvc5, q_cvc5_unsat, q_cvc5_sat;
     Label             labels[MAXLAB];
     char              samples[MAXSMP][900];
 };
@@ -210,6 +210,111 @@ struct QR
     z3::check_result           r;
     std::unique_ptr<z3::model> m;
 };
+// second solver: a query that z3's nlsat leaves `unknown` is handed to cvc5 (CLI, same SMT-LIB text). `unsat` is taken as is; for
+// `sat` cvc5's model is fed back to z3 as equalities so that the model object used for replay comes from z3 evaluating it.
+void cvc5_fallback(z3::solver& q, QR& out)
+{
+    static const int enabled = getenv("SYM_CVC5") ? atoi(getenv("SYM_CVC5")) : 1;
+    if (!enabled || S->stop.load() || (deadline > 0 && now() > deadline)) return;
+    static int  k    = 0;
+    std::string base = "/dev/shm/symq_" + std::to_string(getpid()) + "_" + std::to_string(k++);
+    std::string text;
+    try
+    {
+        text = q.to_smt2();
+    }
+    catch (z3::exception&)
+    {
+        return;
+    }
+    {
+        FILE* fp = fopen((base + ".smt2").c_str(), "w");
+        if (!fp) return;
+        fputs("(set-option :produce-models true)\n(set-logic QF_NRA)\n", fp);
+        fputs(text.c_str(), fp);
+        fputs("\n(get-model)\n", fp);
+        fclose(fp);
+    }
+    const double budget = std::min(query_s, 10.0);
+    std::string  cmd    = "timeout " + std::to_string((int)std::ceil(budget)) + " cvc5 --lang smt2 " + base + ".smt2 2>/dev/null";
+    std::string  outp;
+    if (FILE* pp = popen(cmd.c_str(), "r"))
+    {
+        char   buf[4096];
+        size_t n;
+        while ((n = fread(buf, 1, sizeof buf, pp)) > 0) outp.append(buf, n);
+        pclose(pp);
+    }
+    unlink((base + ".smt2").c_str());
+    S->q_cvc5++;
+    if (outp.compare(0, 5, "unsat") == 0)
+    {
+        out.r = z3::unsat;
+        S->q_cvc5_unsat++;
+        return;
+    }
+    if (outp.compare(0, 3, "sat") != 0) return;
+    // import the model: declarations of the query + (assert (= name value)) per define-fun, re-checked by z3
+    std::string hints;
+    size_t      p = 0;
+    while ((p = text.find("(declare-fun ", p)) != std::string::npos)
+    {
+        size_t e = text.find('\n', p);
+        hints += text.substr(p, e == std::string::npos ? std::string::npos : e - p) + "\n";
+        if (e == std::string::npos) break;
+        p = e;
+    }
+    p = 0;
+    while ((p = outp.find("(define-fun ", p)) != std::string::npos)
+    {
+        size_t a = p + 12;
+        size_t b;
+        if (outp[a] == '|') b = outp.find('|', a + 1) + 1;
+        else b = outp.find(' ', a);
+        std::string name = outp.substr(a, b - a);
+        size_t      t    = outp.find("Real", b);
+        if (t == std::string::npos) break;
+        size_t v = t + 4;
+        // value: balanced expression up to the define-fun's closing parenthesis
+        int    depth = 0;
+        size_t e     = v;
+        for (; e < outp.size(); ++e)
+        {
+            if (outp[e] == '(') ++depth;
+            else if (outp[e] == ')')
+            {
+                if (depth == 0) break;
+                --depth;
+            }
+        }
+        hints += "(assert (= " + name + " " + outp.substr(v, e - v) + "))\n";
+        p = e;
+    }
+    try
+    {
+        z3::expr_vector hv = C->parse_string(hints.c_str());
+        z3::solver      q2 = (z3::tactic(*C, "simplify") & z3::tactic(*C, "propagate-values") & z3::tactic(*C, "qfnra-nlsat")).mk_solver();
+        z3::expr_vector as = q.assertions();
+        for (unsigned i = 0; i < as.size(); ++i) q2.add(as[i]);
+        for (unsigned i = 0; i < hv.size(); ++i) q2.add(hv[i]);
+        in_query = 1;
+        alarm(3);
+        z3::check_result r2 = q2.check();
+        alarm(0);
+        in_query = 0;
+        if (r2 == z3::sat)
+        {
+            out.m.reset(new z3::model(q2.get_model()));
+            out.r = z3::sat;
+            S->q_cvc5_sat++;
+        }
+    }
+    catch (z3::exception&)
+    {
+        alarm(0);
+        in_query = 0;
+    }
+}
 QR query(const z3::expr* extra1, const z3::expr* extra2 = nullptr)
 {
     S->queries++;
@@ -226,7 +331,9 @@ QR query(const z3::expr* extra1, const z3::expr* extra2 = nullptr)
     if (extra2) q.add(*extra2);
     QR out;
     in_query = 1;
-    alarm((unsigned)std::ceil(query_s));
+    // once the second solver has proved useful in this run, z3 gets a shorter first attempt (the query then goes to cvc5)
+    const bool   cvc5_useful = S->q_cvc5_unsat.load() + S->q_cvc5_sat.load() >= 2;
+    alarm((unsigned)std::ceil(cvc5_useful ? std::min(query_s, 3.0) : query_s));
     try
     {
         out.r = q.check();
@@ -248,8 +355,21 @@ QR query(const z3::expr* extra1, const z3::expr* extra2 = nullptr)
             out.r = z3::unknown;
         }
     }
+    if (out.r == z3::unknown) cvc5_fallback(q, out);
     long us = (long)((now() - t0) * 1e6);
     S->solver_us += us;
+    if (out.r == z3::unknown)
+        if (const char* d = getenv("SYM_DUMP_UNKNOWN"))
+        {
+            static int  k = 0;
+            std::string f = std::string(d) + "/u" + std::to_string(getpid()) + "_" + std::to_string(k++) + ".smt2";
+            FILE*       fp = fopen(f.c_str(), "w");
+            if (fp)
+            {
+                fputs(q.to_smt2().c_str(), fp);
+                fclose(fp);
+            }
+        }
     long prev = S->slowest_us.load();
     while (us > prev && !S->slowest_us.compare_exchange_weak(prev, us)) {}
     if (out.r == z3::sat) S->q_sat++;
@@ -860,6 +980,9 @@ void write_summary()
     kv("sqrt_guards", S->sqrt_guard);
     kv("discharged_within_1e-9", S->tol_discharged);
     kv("slowest_query_us", S->slowest_us);
+    kv("queries_to_cvc5", S->q_cvc5);
+    kv("cvc5_unsat", S->q_cvc5_unsat);
+    kv("cvc5_sat", S->q_cvc5_sat);
     o += " \"solver_s\": " + std::to_string(S->solver_us.load() / 1e6) + ",\n";
     o += " \"wall_s\": " + std::to_string(now() - t_start) + ",\n";
     o += std::string(" \"exhaustive\": ") + ((S->truncated.load() == 0 && S->stop.load() == 0) ? "true" : "false") + ",\n";
@@ -1423,6 +1546,41 @@ void sym_check_cmp(double a, int op, double b, const char* lab)
     default: mneg = x + m < y; tneg = x + t < y; break;
     }
     obligation(cmp_term(op, x, y), &mneg, lab, &tneg);
+}
+void sym_check_cmp_exact(double a, int op, double b, const char* lab)
+{
+    if ((!isbox(a) && !isbox(b)) || special(a) || special(b))
+    {
+        if (!isbox(a) && !isbox(b) && !concrete_mode)
+        {
+            Label* l = label(lab);
+            if (symc::concrete_holds(a, op, b, 0.0))
+            {
+                l->checked++;
+                l->discharged++;
+                S->obligations++;
+                S->discharged++;
+                return;
+            }
+        }
+        sym_check_cmp(a, op, b, lab);
+        return;
+    }
+    z3::expr x = ex(a), y = ex(b);
+    // a model with a visible margin is preferred for the replay, but an exact counter-example is a violation too
+    z3::expr scale = (1 + absx(x) + absx(y));
+    z3::expr m     = C->real_val(1, 1000) * scale;
+    z3::expr mneg  = C->bool_val(false);
+    switch (op)
+    {
+    case SYM_EQ: mneg = absx(x - y) > m; break;
+    case SYM_NE: mneg = (x == y); break;
+    case SYM_LT: mneg = x >= y + m; break;
+    case SYM_LE: mneg = x > y + m; break;
+    case SYM_GT: mneg = x + m <= y; break;
+    default: mneg = x + m < y; break;
+    }
+    obligation(cmp_term(op, x, y), &mneg, lab, nullptr);
 }
 void sym_close(double a, double b, double rel, const char* lab)
 {
